@@ -327,6 +327,28 @@ func Packets(thorough bool, yield func(n *wire.N)) {
 		yield(Eth(nil, 0x0800, IPv4(6, ol, Tcp(5))))
 		yield(Eth(nil, 0x0800, IPv4(17, ol, Udp(5))))
 	}
+	// frames padded to the Ethernet minimum (or carrying a trailer): the IP total length, the IPv6
+	// payload length and the UDP length say where the datagram ends, the frame goes on; the library
+	// carries the length fields as they are and everything behind the headers as payload
+	{
+		u := Udp(4 + 18) // 4 bytes of data + 18 bytes of padding
+		u.Set("Length", 12)
+		ip := IPv4(17, 0, u)
+		ip.Set("Length", 32)
+		yield(Eth(nil, 0x0800, ip.Clone()))
+		yield(Eth(Vlan(1, 0, 12), 0x0800, ip.Clone()))
+		ic := IPv4(1, 0, Icmp(8, 2+20))
+		ic.Set("Length", 26)
+		yield(Eth(nil, 0x0800, ic))
+		u6 := Udp(6 + 7)
+		u6.Set("Length", 14)
+		ip6 := IPv6(nil, 17, u6)
+		ip6.Set("Length", 14)
+		yield(Eth(nil, 0x86dd, ip6))
+		o := IPv4(253, 0, Opaque(30))
+		o.Set("Length", 24)
+		yield(Eth(nil, 0x0800, o))
+	}
 	// protocol 6 payloads that the library's TCP type cannot hold (all flag and reserved bits set;
 	// fewer than 20 bytes): carried opaque today, they must come back byte for byte
 	for _, raw := range [][]byte{append([]byte{0x04, 0x00, 0x00, 0x50, 0, 0, 0, 1, 0, 0, 0, 2, 0xff, 0xff, 0x20, 0x00, 0xaa, 0xbb, 0, 0}, Payload(6)...),
